@@ -228,14 +228,14 @@ def trigger_matches(rec, modname, func, param, tier, args_src):
 def run_obligation(prop, modname, path, func, meta, param, tier, known, doc):
     tq, tt = meta["timeout"]
     timeout = tt if tier == "thorough" else tq
-    label = func if param is None else "%s[%d]" % (func, param)
+    label = (func if param is None else "%s[%d]" % (func, param)) + meta.get("label_suffix", "")
     rec = dict(obligation=label, functions=list(meta["funcs"]), bounds=meta["bounds"],
                pre=[l.strip() for l in doc.split("\n") if l.strip().startswith("pre:")],
                post=[l.strip() for l in doc.split("\n") if l.strip().startswith("post:")],
                budget_s=timeout, known_findings=[], violations=[], notes=[])
     t0 = time.time()
     # reachability twin (vacuity guard)
-    twin_path = make_variant(path, func, "reach%s" % ("" if param is None else param), post='_ != "ok"')
+    twin_path = make_variant(path, func, "reach%s%s" % ("" if param is None else param, tier[0]), post='_ != "ok"')
     twin = run_crosshair(twin_path, func, tier, param, min(timeout, 120), meta["path_timeout"])
     rec["twin"] = dict(verdict=twin["verdict"], wall_s=twin["wall_s"])
     if twin["verdict"] == "counterexample":
@@ -286,7 +286,7 @@ def run_obligation(prop, modname, path, func, meta, param, tier, known, doc):
             rec["known_findings"].append(dict(what=hit["what"], trigger=hit["trigger"],
                                               example="%s(%s)" % (func, args_src), result=rp.get("result")))
             extra_pre.append("not (%s)" % hit["trigger"])
-            cur_path = make_variant(path, func, "kf%d_%s" % (rnd, "" if param is None else param), extra_pre=extra_pre)
+            cur_path = make_variant(path, func, "kf%d_%s%s" % (rnd, "" if param is None else param, tier[0]), extra_pre=extra_pre)
             continue
         rec["violations"].append(dict(call="%s(%s)" % (func, args_src), result=rp.get("result"),
                                       param=param, module=modname, function=func, args=args_src,
@@ -322,14 +322,21 @@ def run_property(prop, tier, only=None, budget=None):
         print("HARNESS-ERROR property=%s has no obligations" % prop)
         return EXIT_HARNESS
     jobs = []
-    for modname, path, func, meta, params, doc in obs:
-        for prm in params:
-            label = func if prm is None else "%s[%d]" % (func, prm)
-            if only and not re.search(only, label):
-                continue
-            if budget:
-                meta = dict(meta, timeout=(budget, budget))
-            jobs.append((prop, modname, path, func, meta, prm, tier, known, doc))
+    families = [(obs, tier, "")]
+    if tier == "thorough":
+        # the thorough tier = everything the quick tier decides (same bounds, so it is never weaker than quick)
+        # + the widened obligations, which may or may not exhaust their larger spaces within the budget
+        families = [(load_obligations(prop, "quick"), "quick", "@quick-bounds"), (obs, "thorough", "")]
+    for fam_obs, fam_tier, suffix in families:
+        for modname, path, func, meta, params, doc in fam_obs:
+            for prm in params:
+                label = (func if prm is None else "%s[%d]" % (func, prm)) + suffix
+                if only and not re.search(only, label):
+                    continue
+                m2 = dict(meta, label_suffix=suffix)
+                if budget:
+                    m2["timeout"] = (budget, budget)
+                jobs.append((prop, modname, path, func, m2, prm, fam_tier, known, doc))
     results = []
     with cf.ThreadPoolExecutor(max_workers=max(1, MAX_PAR // 1)) as ex:
         futs = [ex.submit(run_obligation, *j) for j in jobs]
